@@ -565,9 +565,11 @@ func (fs *fileStore) createOutWriter(out *os.File, fields core.Fields, offsetsBy
 func (fs *fileStore) doWrite(cout io.WriteCloser, fields core.Fields, filter goexpr.Expr, truncateBefore time.Time, shouldSort bool, key bytemap.ByteMap, columns []encoding.Sequence, raw []byte) (int64, error) {
 	highWaterMark := int64(0)
 
-	if !shouldSort && raw != nil {
+	if raw != nil {
 		// This is an optimization that allows us to skip other processing by just
-		// passing through the raw data
+		// passing through the raw data. When raw is supplied, columns is nil, so
+		// this applies to sorted flushes too (the raw row is a complete item and
+		// row buffers aren't reused when sorting).
 		_, writeErr := cout.Write(raw)
 		return highWaterMark, writeErr
 	}
